@@ -114,17 +114,20 @@ def run(index, tier="quick", seed=0) -> Result:
     # where(a != 0, a, where(b != 0, b, c)) - its name carries no meaning
     tiebreak = set()
     for d_ in _ast.walk(pfn.node):
-        if isinstance(d_, _ast.FunctionDef) and d_ is not pfn.node and len(d_.args.args) == 3:
-            from ..astutil import returns as _returns
-            rets_ = [rv for (_r, rv) in _returns(d_)]
-            if len(rets_) == 1 and isinstance(rets_[0], _ast.Call) and _ast.unparse(rets_[0].func).endswith("where") \
-                    and sum(1 for x in _ast.walk(rets_[0]) if isinstance(x, _ast.Call) and _ast.unparse(x.func).endswith("where")) == 2:
-                a_, b_, c_ = [x.arg for x in d_.args.args]
-                outer, = [rets_[0]]
-                inner = [x for x in outer.args if isinstance(x, _ast.Call)]
-                if len(outer.args) == 3 and _ast.unparse(outer.args[1]) == a_ and inner and len(inner[0].args) == 3 \
-                        and _ast.unparse(inner[0].args[1]) == b_ and _ast.unparse(inner[0].args[2]) == c_:
-                    tiebreak.add(d_.name)
+        if isinstance(d_, _ast.FunctionDef) and d_ is not pfn.node:
+            # abstract evaluation of the helper on three symbolic sign arrays in the domain "first non-zero of an ordered list"
+            chain = _first_nonzero_chain(d_, 3)
+            if chain is None:
+                continue
+            if chain == [0, 1, 2]:
+                tiebreak.add(d_.name)
+            elif set(chain) < {0, 1, 2} and chain == sorted(chain):
+                missing = "xyz"[({0, 1, 2} - set(chain)).pop()]
+                res.bad("IN-10", f"Polyhedron.is_inside:tiebreak-drops-{missing}", f"{pfn.file}:{d_.lineno}",
+                        f"the lexicographic tie-break helper `{d_.name}` returns the first non-zero of its arguments {[('a', 'b', 'c')[i] for i in chain]} only: "
+                        f"its {('first', 'second', 'third')[({0, 1, 2} - set(chain)).pop()]} argument is never consulted, so a query point that shares the leading "
+                        "coordinates with a vertex gets sign 0 and a wrong winding number")
+                tiebreak.add(d_.name)
     if not tiebreak:
         raise AnalysisError("Polyhedron.is_inside: the lexicographic tie-break helper where(a != 0, a, where(b != 0, b, c)) is not recognised")
     for n_ in _ast.walk(pfn.node):
@@ -146,3 +149,82 @@ def run(index, tier="quick", seed=0) -> Result:
     report_translation(res, _scan(index), lambda func, path: (path[0] if path else func).split(".")[0] in ("ConvexPolyhedron", "Polyhedron", "Sphere", "Ellipsoid", "ConvexSpheropolyhedron") and (path[0] if path else func).endswith(".is_inside"),
                        "is_inside implementations")
     return res
+
+
+def _first_nonzero_chain(fn, nargs):
+    """Evaluate a small helper on `nargs` symbolic arrays in the abstract domain 'first non-zero element of an ordered list of
+    candidates' (a chain of argument positions).  np.where(X != 0, X, Y) concatenates the chains of X and Y.  Returns the
+    chain of the returned value, or None when the helper leaves this fragment (not a tie-break helper)."""
+    import ast
+
+    class Out(Exception):
+        pass
+
+    a = fn.args
+    params = [x.arg for x in a.args]
+    env = {}
+    if a.vararg and not params:
+        env[a.vararg.arg] = tuple([i] for i in range(nargs))
+    elif len(params) == nargs and not a.vararg:
+        for i, p in enumerate(params):
+            env[p] = [i]
+    else:
+        return None
+
+    def ev(n):
+        if isinstance(n, ast.Name):
+            if n.id in env:
+                return env[n.id]
+            raise Out()
+        if isinstance(n, ast.Subscript):
+            base = ev(n.value)
+            if not isinstance(base, tuple):
+                raise Out()
+            try:
+                if isinstance(n.slice, ast.Slice):
+                    lo = ast.literal_eval(n.slice.lower) if n.slice.lower is not None else None
+                    hi = ast.literal_eval(n.slice.upper) if n.slice.upper is not None else None
+                    st = ast.literal_eval(n.slice.step) if n.slice.step is not None else None
+                    return base[lo:hi:st]
+                return base[ast.literal_eval(n.slice)]
+            except Out:
+                raise
+            except Exception:
+                raise Out()
+        if isinstance(n, ast.Call) and ast.unparse(n.func).split(".")[-1] == "where" and len(n.args) == 3:
+            cond, x, y = n.args
+            if not (isinstance(cond, ast.Compare) and len(cond.ops) == 1 and isinstance(cond.ops[0], ast.NotEq)
+                    and isinstance(cond.comparators[0], ast.Constant) and cond.comparators[0].value == 0):
+                raise Out()
+            cx, vx, vy = ev(cond.left), ev(x), ev(y)
+            if cx != vx or isinstance(vx, tuple) or isinstance(vy, tuple):
+                raise Out()
+            return vx + [i for i in vy if i not in vx]
+        raise Out()
+
+    def run(stmts):
+        for s in stmts:
+            if isinstance(s, ast.Expr) and isinstance(s.value, ast.Constant):
+                continue
+            if isinstance(s, ast.Assign) and len(s.targets) == 1 and isinstance(s.targets[0], ast.Name):
+                env[s.targets[0].id] = ev(s.value)
+            elif isinstance(s, ast.For) and isinstance(s.target, ast.Name) and not s.orelse:
+                seq = ev(s.iter)
+                if not isinstance(seq, tuple):
+                    raise Out()
+                for item in seq:
+                    env[s.target.id] = item
+                    r = run(s.body)
+                    if r is not None:
+                        return r
+            elif isinstance(s, ast.Return) and s.value is not None:
+                return ev(s.value)
+            else:
+                raise Out()
+        return None
+
+    try:
+        r = run(fn.body)
+    except Out:
+        return None
+    return r if isinstance(r, list) else None
